@@ -391,6 +391,8 @@ pub trait Vec1View<T>: TIter<T> {
         T: 'a,
     {
         let len = self.len();
+        // an empty input needs no window; otherwise a zero window would leave `out` unwritten
+        assert!(window > 0 || len == 0, "window must be greater than 0");
         let window = window.min(len);
         if window == 0 {
             return;
@@ -562,6 +564,8 @@ pub trait Vec1View<T>: TIter<T> {
         F: FnMut(Option<T>, T) -> OT,
     {
         let len = self.len();
+        // an empty input needs no window; otherwise a zero window would leave `out` unwritten
+        assert!(window > 0 || len == 0, "window must be greater than 0");
         let window = window.min(len);
         if window == 0 {
             return;
@@ -681,6 +685,8 @@ pub trait Vec1View<T>: TIter<T> {
         F: FnMut(Option<(T, T2)>, (T, T2)) -> OT,
     {
         let len = self.len();
+        // an empty input needs no window; otherwise a zero window would leave `out` unwritten
+        assert!(window > 0 || len == 0, "window must be greater than 0");
         let window = window.min(len);
         if window == 0 {
             return;
@@ -792,6 +798,8 @@ pub trait Vec1View<T>: TIter<T> {
         F: FnMut(Option<usize>, usize, T) -> OT,
     {
         let len = self.len();
+        // an empty input needs no window; otherwise a zero window would leave `out` unwritten
+        assert!(window > 0 || len == 0, "window must be greater than 0");
         let window = window.min(len);
         if window == 0 {
             return;
@@ -913,6 +921,8 @@ pub trait Vec1View<T>: TIter<T> {
         F: FnMut(Option<usize>, usize, (T, T2)) -> OT,
     {
         let len = self.len();
+        // an empty input needs no window; otherwise a zero window would leave `out` unwritten
+        assert!(window > 0 || len == 0, "window must be greater than 0");
         let window = window.min(len);
         if window == 0 {
             return;
